@@ -217,9 +217,21 @@ func c04CheckLoaded(s *c04State, p c04Persisted) string {
 	return ""
 }
 
-func c04Explore(r *verifmc.Report, ver trie.TrieLayout, depth int) {
+func c04Explore(r *verifmc.Report, ver trie.TrieLayout, depth int, longKeys bool) {
 	vals := [][]byte{{0x01}, vVal(0x32, 32), vVal(0x33, 33)}
 	names := [][]byte{[]byte("c1"), []byte("c2")}
+	if longKeys {
+		// keys with a LONG extension of a key that is present (01 | 01 ab*20 | 01 ab*20 01): partial keys
+		// of 40+ nibbles cut out of one nibble slice, so a write past the end of one partial key lands in
+		// another one
+		ext := append([]byte{0x01}, bytes.Repeat([]byte{0xab}, 20)...)
+		saveK, saveP := c04Keys, c04Probes
+		c04Keys = [][]byte{{0x01}, ext, append(append([]byte{}, ext...), 0x01), {0x15}}
+		c04Probes = [][]byte{{0x02}, ext[:10], {}}
+		defer func() { c04Keys, c04Probes = saveK, saveP }()
+		vals = [][]byte{{0x01}, vVal(0x33, 33)}
+		names = nil
+	}
 	h := &verifmc.Hist[*c04State]{
 		Fresh: func() *c04State {
 			tr := NewEmptyTrie()
@@ -385,8 +397,13 @@ func TestVerif_C04(t *testing.T) {
 	r := verifmc.NewReport("C04", "persist-reload", "model_checking")
 	defer r.Write()
 	depth := verifmc.Pick(4, 6)
-	r.Rule = fmt.Sprintf("BFS (depth %d, V0 and V1) over put/delete on 4 main keys (01, 0100, 1500, 1523) with 1/32/33-byte values, putChild/clearChild on 2 child tries, and up to 3 persists (WriteDirty into a map-backed database then Snapshot); after every operation every persisted root is reloaded into a fresh trie (root, entries, child tries compared with the model) and read key by key with GetFromDB (4 keys + 6 absent probes incl. 23, which diverges inside the partial key of the branch of 1500/1523)", depth)
+	r.Rule = fmt.Sprintf("BFS (depth %d, V0 and V1) over put/delete on 4 main keys (01, 0100, 1500, 1523) with 1/32/33-byte values, putChild/clearChild on 2 child tries, and up to 3 persists (WriteDirty into a map-backed database then Snapshot); after every operation every persisted root is reloaded into a fresh trie (root, entries, child tries compared with the model) and read key by key with GetFromDB (4 keys + 6 absent probes incl. 23, which diverges inside the partial key of the branch of 1500/1523); the same without child tries on keys with a 20-byte extension of a present key (01, 01 ab*20, 01 ab*20 01, 15) and 1/33-byte values", depth)
 	for _, ver := range []trie.TrieLayout{trie.V0, trie.V1} {
-		c04Explore(r, ver, depth)
+		c04Explore(r, ver, depth, false)
 	}
+	dLong := verifmc.Pick(4, 5)
+	for _, ver := range []trie.TrieLayout{trie.V0, trie.V1} {
+		c04Explore(r, ver, dLong, true)
+	}
+	r.Extra["depth_long_extension_keys"] = dLong
 }
